@@ -224,3 +224,161 @@ Example concrete_nonvacuous :
   type_view plain (1, 5)%N = type_view fancy (1, 5)%N /\
   exists v, type_view fancy (1, 6)%N = Some v /\ length (fst v) = 3%nat.
 Proof. repeat split. eexists. split; reflexivity. Qed.
+
+(* ------------------------------------------------------------------ *)
+(* (4b) the model's view IS the denotation's, for every schema in guard *)
+(* ------------------------------------------------------------------ *)
+From SV Require Import C07.Denote C07.DenoteProofs.
+
+(* For EVERY concrete schema (any number of blocks, declarations, nesting) with
+   unique names, blocks of a namespace agreeing on elementFormDefault (the known
+   quirk excluded), an existing expansion (references resolve, group nesting
+   bounded) and a resolving extension chain for q: what the model says sxbase.Iter
+   yields for type q is exactly the flattened denotation (Denote.v: refs, groups,
+   attribute groups expanded by the XSD rules; base members first). *)
+Theorem model_is_denotation : forall C D q,
+  unique_names C = true -> same_efd C = true -> denote C = Some D ->
+  view_defined C q = true ->
+  type_view C q = denoted_view D q.
+Proof. exact model_is_denotation_l. Qed.
+Print Assumptions model_is_denotation.
+
+(* Hence two renderings inside the guard whose denotations flatten to the same
+   members have the same view: group / attribute-group factoring, ref vs inline,
+   declaration order and block splitting are all instances. *)
+Theorem equal_denotation_equal_views : forall C1 C2 D1 D2 q,
+  wf C1 = true -> wf C2 = true -> denote C1 = Some D1 -> denote C2 = Some D2 ->
+  view_defined C1 q = true -> view_defined C2 q = true ->
+  denoted_view D1 q = denoted_view D2 q ->
+  type_view C1 q = type_view C2 q.
+Proof. exact equal_flat_denotation_equal_views_l. Qed.
+Print Assumptions equal_denotation_equal_views.
+
+(* what a group reference denotes flattens like the group written in place *)
+Theorem group_wrapper_flat : forall anc ch k o ks,
+  flat_p anc ch (PC KSeq o [PC k false ks]) = flat_p anc ch (PC k o ks).
+Proof. exact group_wrapper_flat_l. Qed.
+Print Assumptions group_wrapper_flat.
+
+(* global elements are qualified, in their namespace, inside the guard excluding
+   the later-block quirk *)
+Theorem global_elements_by_the_rules : forall C q pl nm ty nl dflt,
+  globals_first C = true ->
+  lookup_decl KElem q (placed_all C) = Some pl -> p_decl pl = DElem nm ty nl dflt ->
+  global_elem_view (placed_all C) q = Some (p_ns pl, true, ty, nl).
+Proof. exact global_elements_by_the_rules_l. Qed.
+Print Assumptions global_elements_by_the_rules.
+
+Example denotation_nonvacuous :
+  let fancy := [mkBlock 1 true
+    [DType 6 (Some (1, 5)) [CGrp (1, 31) false] [];
+     DGroup 30 (CCont KChoice false [CEl 11 TBuiltin false true false None None]);
+     DElem 10 TBuiltin true None];
+    mkBlock 1 true
+    [DAGroup 32 [CAt (mkA 20 true None)];
+     DGroup 31 (CCont KSeq false [CEl 12 (TNamed 1 5) true false false None (Some true)]);
+     DType 5 None [CCont KSeq false [CRef (1, 10) false false; CGrp (1, 30) true]] [CAGrp (1, 32)]]]%N in
+  wf fancy = true /\ globals_first fancy = true /\
+  view_defined fancy (1, 6)%N = true /\
+  (exists D, denote fancy = Some D /\ length D = 2%nat) /\
+  (* the guard really excludes the quirk schema *)
+  same_efd efd_counterexample = false.
+Proof. repeat split. eexists. split; reflexivity. Qed.
+
+(* ------------------------------------------------------------------ *)
+(* (5) Schema.dereference: the merges, in dependency_sort order         *)
+(* ------------------------------------------------------------------ *)
+From SV Require Import C07.Store C07.StoreProofs.
+
+(* Guard: the objects handed to dependency_sort are distinct and their dependency
+   graph is acyclic (a target outside `all`, e.g. in another namespace's Schema, is
+   a dangling edge and is allowed).  Then after the loop EVERY object satisfies its
+   resolution equation -- it is its original self merged with the FINAL state of
+   its dependency (children, name/type/default/occurrence, nillable as per class) --
+   and nothing else changed.  This is where depsort_topological and
+   depsort_permutation are used: the dependency was merged before, and nothing is
+   merged twice. *)
+Theorem deref_sorted_is_resolution : forall st0 g,
+  NoDup (keys g) -> acyclic g ->
+  (forall e, In e g -> resolved st0 (dereference st0 g) e) /\
+  (forall y, ~ In y (keys g) -> get (dereference st0 g) y = get st0 y).
+Proof. exact deref_sorted_is_resolution_l. Qed.
+Print Assumptions deref_sorted_is_resolution.
+
+(* Where no merge target has a dependency of its own (all that XSD allows), the
+   order is immaterial: any order merges each object with its original target. *)
+Theorem merge_any_order_when_targets_stable : forall order st0,
+  NoDup (keys order) ->
+  (forall x d dk, In (x, d :: dk) order -> forall dd, In (d, dd) order -> dd = []) ->
+  forall e, In e order ->
+    get (merge_in_order order st0) (fst e) =
+    match snd e with
+    | [] => get st0 (fst e)
+    | d :: _ => merge_obj (get st0 (fst e)) (get st0 d)
+    end.
+Proof. exact merge_any_order_when_targets_stable_l. Qed.
+Print Assumptions merge_any_order_when_targets_stable.
+
+(* Why dependency_sort matters: with a chain (reference -> named group that is
+   itself a reference -> group), an order that merges the dependent first leaves it
+   without members; the sorted order does not.  (Replayed on the implementation by
+   the harness' hand-written chain schemas.) *)
+Theorem deref_wrong_order_refuted :
+  NoDup (keys chain_graph) /\ acyclic chain_graph /\
+  o_kids (get (dereference chain_store chain_graph) 3%N) = [10%N] /\
+  (exists order, Permutation order chain_graph /\
+                 o_kids (get (merge_in_order order chain_store) 3%N) = [] /\
+                 ~ resolved chain_store (merge_in_order order chain_store) (3, [2])%N).
+Proof. exact deref_wrong_order_refuted_l. Qed.
+Print Assumptions deref_wrong_order_refuted.
+
+(* ------------------------------------------------------------------ *)
+(* (6) WSDL linking                                                     *)
+(* ------------------------------------------------------------------ *)
+From SV Require Import C07.Wsdl C07.WsdlProofs.
+
+(* Any permutation of the top-level children of wsdl:definitions (types, messages,
+   portTypes, bindings, services in any order), names unique per kind: either both
+   documents fail to link, or they link the same services -- same ports, same
+   operations, same parts, same wrapped flags (the services themselves are listed
+   in document order, hence "up to permutation"). *)
+Theorem wsdl_link_order_independent : forall tns unwrap eb ch ch',
+  Permutation ch ch' -> wuniq ch ->
+  match link tns unwrap eb ch, link tns unwrap eb ch' with
+  | LOk a, LOk b => Permutation a b
+  | LError, LError => True
+  | _, _ => False
+  end.
+Proof. exact wsdl_link_order_independent_l. Qed.
+Print Assumptions wsdl_link_order_independent.
+
+(* The order in which resolve() visits the children does not matter either, so
+   neither does what children.sort() does with children of equal kind. *)
+Theorem resolve_order_immaterial : forall tns unwrap eb ch order,
+  Permutation order ch ->
+  link_visiting tns unwrap eb ch order = link tns unwrap eb ch.
+Proof. exact resolve_order_immaterial_l. Qed.
+Print Assumptions resolve_order_immaterial.
+
+(* set_wrapped: wrapped exactly when unwrapping is on, the body has exactly one
+   part, the part references an element, and that element's type is not a builtin. *)
+Theorem wrapped_rule : forall unwrap eb parts,
+  wrapped_flag unwrap eb parts = Some true <->
+  unwrap = true /\ exists p q, parts = [p] /\ pt_element p = Some q /\ eb q = Some false.
+Proof. exact wrapped_rule_l. Qed.
+Print Assumptions wrapped_rule.
+
+Local Open Scope N_scope.
+Example wsdl_nonvacuous :
+  let m  := WMessage 1 [mkPart 9 (Some (1, 20)) None] in
+  let mo := WMessage 2 [] in
+  let pt := WPortType 3 [mkPtOp 7 (Some (1, 1)) (Some (1, 2))] in
+  let bd := WBinding 4 (1, 3) true [7] in
+  let sv := WService 5 [(6, (1, 4))] in
+  let eb := fun q : qn => if qn_eqb q (1, 20) then Some false else None in
+  link 1 true eb [sv; bd; WTypes; pt; mo; m] = link 1 true eb [WTypes; m; mo; pt; bd; sv] /\
+  link 1 true eb [sv; bd; WTypes; pt; mo; m] =
+    LOk [(5, [(6, [(7, ([mkPart 9 (Some (1, 20)) None], true), ([], false))])])] /\
+  link 1 true eb [sv; bd; pt; m] = LError.        (* the output message is missing *)
+Proof. repeat split. Qed.
+Local Close Scope N_scope.
